@@ -1,7 +1,7 @@
 #!/bin/bash
 # seedloop.sh Cxx ... : confirm each finished seed (scratch worktree) and run its property's quick check on a patched scratch copy
 for id in "$@"; do
-  out=/tmp/seed/out_$id
+  out=${SEEDBASE:-/tmp/seed}/out_$id
   [ -f $out/patch.diff ] && [ -f $out/demo.py ] || { echo "$id: not ready"; continue; }
   echo "=== $id"
   /venv/bin/python /verif/tools/seedtest.py confirm $out 2>&1 | grep -e '"ok"' -e '"files"' -A1 | grep -v -e "^--" | tr -d '\n'; echo
